@@ -49,6 +49,7 @@ And the amino acid codes:
 from functools import lru_cache
 from importlib.resources import files
 import json
+from os import fspath
 from os.path import isfile
 
 # IUPAC nucleotid code
@@ -74,6 +75,7 @@ def submat(fname):
     :param fname: One of the following values: ``{}``. Or use your own file.
     """
     if not isfile(fname):
+        fname = fspath(fname)  # a Path that is no file is reported like a name
         if fname.upper() not in _submat_files():
             fnames = ', '.join(_submat_files())
             msg = f'No file at {fname}, available matrices: {fnames}'
